@@ -25,8 +25,13 @@ func main() {
 		tags    = flag.String("tags", "", "extra build tags")
 		goarch  = flag.String("goarch", "", "GOARCH for loading")
 		tool    = flag.String("toolchain", "local", "local | auto")
+		specs   = flag.Bool("specs", false, "print the registered property specifications as JSON (used to generate MANIFEST.json)")
 	)
 	flag.Parse()
+	if *specs {
+		printSpecs()
+		return
+	}
 	start := time.Now()
 
 	vdir := *verif
